@@ -17,6 +17,8 @@ CONSTANTS Steps,        \* set of time steps, e.g. 1..3 (step = value of the tem
           InOthers,     \* other input columns (tensors)
           TemporalKeys, \* set of possible temporal key sets, e.g. {{"it"}, {"t"}, {"it","t"}}
           ScalarVars, TensorVars, \* variables that can be requested (built-in or custom), by kind of value
+          InRequestable,\* input columns whose name is also the name of a built-in variable and may be requested: the request is
+                        \* dropped, the column stays what the user supplied
           Estimates,
           MaxCalls, Emit
 
@@ -39,13 +41,13 @@ Sorted        == [i \in 1 .. Cardinality(Steps) |-> CHOOSE s \in Steps : Cardina
 Init == /\ tkeys \in TemporalKeys
         /\ cols = {InCol(c) : c \in InScalars \cup InOthers}
         /\ order \in Perms(Steps) /\ order0 = order
-        /\ wantV \in SUBSET (ScalarVars \cup TensorVars) /\ wantE \in SUBSET Estimates
+        /\ wantV \in SUBSET (ScalarVars \cup TensorVars \cup InRequestable) /\ wantE \in SUBSET Estimates
         /\ hist = << >>
 
 (* one call over_time(data, fd, vars = V, estimates = E) on the current table *)
 Call(V, E) ==
     /\ Len(hist) < MaxCalls /\ V \subseteq wantV /\ E \subseteq wantE
-    /\ LET newV   == {v \in V : VarCol(v) \notin cols}
+    /\ LET newV   == {v \in V : VarCol(v) \notin cols /\ InCol(v) \notin cols}
            c1     == cols \cup {VarCol(v) : v \in newV}
            sc     == ScalarCols(c1)
            newE   == {EstCol(c, e) : c \in sc, e \in E} \ c1
@@ -58,12 +60,12 @@ Shuffle == /\ Len(hist) < MaxCalls /\ hist # << >> /\ hist[Len(hist)].op # "shuf
            /\ \E p \in Perms(Steps) : p # order /\ order' = p
            /\ hist' = Append(hist, [op |-> "shuffle", order |-> order'])
            /\ UNCHANGED <<cols, tkeys, wantV, wantE, order0>>
-Next == (\E V \in SUBSET (ScalarVars \cup TensorVars), E \in SUBSET Estimates : Call(V, E)) \/ Shuffle
+Next == (\E V \in SUBSET (ScalarVars \cup TensorVars \cup InRequestable), E \in SUBSET Estimates : Call(V, E)) \/ Shuffle
 Spec == Init /\ [][Next]_vars
 
 -----------------------------------------------------------------------------
 (* the table one single call over_time(inputs, V, E) produces *)
-Final(V, E) == {InCol(c) : c \in InScalars \cup InOthers} \cup {VarCol(v) : v \in V}
+Final(V, E) == {InCol(c) : c \in InScalars \cup InOthers} \cup {VarCol(v) : v \in V \ (InScalars \cup InOthers)}
                \cup {EstCol(c, e) : c \in InScalars \cup (V \cap ScalarVars), e \in E}
 Calls      == {k \in 1 .. Len(hist) : hist[k].op = "call"}
 Requested  == UNION {hist[k].vars : k \in Calls}
